@@ -100,7 +100,25 @@ def job_version(job):
                            'mir_statements_executed': I.steps, 'symbolic_branches_merged': I.branches}]
         native = OV.Native(extra['native'])
         if unk and not fails:
-            raise Inconclusive('solver returned unknown for %s' % unk[:2])
+            # undecided: look for a concrete witness natively before giving up (found -> confirmed violation; none -> inconclusive)
+            rw = random.Random(seed * 17 + v)
+            total_ = len(R['stream'])
+            for t_ in range(16 if v < 10 else 4):
+                st_ = [rw.randrange(256) for _ in range(total_)]
+                lv_ = rw.randrange(4)
+                mk_ = rw.choice([None, rw.randrange(8), rw.randrange(8)])
+                mism, req = confirm_native(native, v, st_, lv_, mk_)
+                mine = [d for k, d in mism if PROP_OF_KIND.get(k, pid) == pid or k == 'panic' or (pid == 'C02' and k == 'data')
+                        or (pid == 'C08' and k in ('function', 'format', 'version', 'data'))]
+                if mine:
+                    res['failures'].append({'key': '%s/matrix-stage' % pid, 'confirmed': True, 'obligation': unk[0],
+                                            'what': '%s [V%02d level %s forced mask %s, stream %s...; the solver did not decide %s, witness found by native search]' % (
+                                                mine[0], v + 1, iso.LEVELS[lv_], mk_, bytes(st_[:12]).hex(), unk[0][:60]),
+                                            'replay': {'entry': 'place', 'version': v, 'level': lv_, 'mask': mk_, 'stream': bytes(st_).hex()}})
+                    break
+            else:
+                raise Inconclusive('solver returned unknown for %s' % unk[:2])
+            unk = []
         for lab, model in fails[:1]:
             model = model or {}
             stream = [model.get('s%d' % i, 0) for i in range(len(R['stream']))]
@@ -160,6 +178,17 @@ def job_version(job):
                 ok = ok and conc == nat
             res['validation']['cases'] += 1
             if not ok:
+                # the encoding and the native build disagree on a concrete input.  If the native symbol itself differs from the
+                # ISO symbol for this (stream, level, forced mask), that is a defect of the code (typically: the result for a
+                # forced mask depends on the penalty scores, which are free values in the encoding), not of the translator.
+                mism, req = confirm_native(native, v, stream, level, mask)
+                mine = [d for k, d in mism if PROP_OF_KIND.get(k, pid) == pid or k == 'panic' or (pid == 'C02' and k == 'data')
+                        or (pid == 'C08' and k in ('function', 'format', 'version', 'data'))]
+                if mine:
+                    res['failures'].append({'key': '%s/matrix-stage' % pid, 'confirmed': True, 'obligation': 'concrete validation run',
+                                            'what': '%s [V%02d level %s forced mask %s, stream %s...]' % (mine[0], v + 1, iso.LEVELS[level], mask, bytes(stream[:12]).hex()),
+                                            'replay': {'entry': 'place', 'version': v, 'level': level, 'mask': mask, 'stream': bytes(stream).hex()}})
+                    break
                 res['validation']['disagreements'] += 1
                 raise Inconclusive('translator validation failed for V%02d (stream %s..., level %d, mask %d)' % (v + 1, bytes(stream[:6]).hex(), level, mask))
         native.close()
